@@ -100,6 +100,7 @@ fn small_model(w: &mut Tape, syn: Syntax) -> Vec<ds::Elem> {
         latin1: false,
         utf8: false,
         other_cs: 0,
+        nested_charset: false,
     };
     let mut m = model_items_undef(&restrict_to(&ds::gen_dataset(w, &gcfg), syn));
     if !big {
